@@ -16,6 +16,9 @@
 #include "security.h"
 #include "../../core/misc/byteswap.h"
 
+#if !(__APPLE__)
+#include <endian.h>
+#endif
 #include <errno.h>
 #include <stdio.h>
 #include <stdlib.h>
@@ -36,68 +39,67 @@ int libwifi_get_rsn_info(struct libwifi_rsn_info *info, const unsigned char *tag
     // Create a pointer we can manipulate from the tag data
     unsigned char *data = (unsigned char *) tag_data;
 
-    // Handle the RSN Version
+    // The version and the group cipher suite are required
+    if (tag_end < tag_data ||
+        (size_t) (tag_end - tag_data) < (sizeof(info->rsn_version) + sizeof(struct libwifi_cipher_suite))) {
+        return -EINVAL;
+    }
+
+    // Handle the Version
     memcpy(&info->rsn_version, data, sizeof(info->rsn_version));
     data += sizeof(info->rsn_version);
 
-    // Handle the RSN Group Cipher Suites
+    // Handle the Group / Multicast Cipher Suite
     memcpy(&info->group_cipher_suite, data, sizeof(struct libwifi_cipher_suite));
     data += sizeof(struct libwifi_cipher_suite);
 
-    // Bounds check and handle the RSN Pairwise Ciphers
-    if (data > tag_end) {
+    // Bounds check and handle the Pairwise Cipher Suites
+    if ((size_t) (tag_end - data) < sizeof(uint16_t)) {
         return -EINVAL;
     }
-    if ((data + sizeof(uint16_t)) > tag_end) {
-        return -EINVAL;
-    }
-    uint16_t suite_count = *data;
-    if (suite_count > LIBWIFI_MAX_CIPHER_SUITES) {
-        suite_count = LIBWIFI_MAX_CIPHER_SUITES;
-    }
+    uint16_t suite_count = 0;
+    memcpy(&suite_count, data, sizeof(suite_count));
+    suite_count = le16toh(suite_count);
     data += sizeof(suite_count);
-    if ((((suite_count * sizeof(struct libwifi_cipher_suite)) + data)) > tag_end) {
+    // The element must hold every suite it declares, even though only the first
+    // LIBWIFI_MAX_CIPHER_SUITES of them are stored
+    if ((size_t) (tag_end - data) < (suite_count * sizeof(struct libwifi_cipher_suite))) {
         return -EINVAL;
     }
-    info->num_pairwise_cipher_suites = suite_count;
-
-    // Iterate through the found Pairwise Ciphers, adding them each time
-    struct libwifi_cipher_suite *cur_cipher_suite = NULL;
-    for (int i = 0; i < suite_count; ++i) {
-        if (data > tag_end) {
-            return -EINVAL;
-        }
-        cur_cipher_suite = (struct libwifi_cipher_suite *) data;
-        memcpy(&info->pairwise_cipher_suites[i], cur_cipher_suite, sizeof(struct libwifi_cipher_suite));
-        data += sizeof(struct libwifi_cipher_suite);
+    uint16_t stored_count = suite_count;
+    if (stored_count > LIBWIFI_MAX_CIPHER_SUITES) {
+        stored_count = LIBWIFI_MAX_CIPHER_SUITES;
     }
+    info->num_pairwise_cipher_suites = stored_count;
+    for (int i = 0; i < stored_count; ++i) {
+        memcpy(&info->pairwise_cipher_suites[i], data + (i * sizeof(struct libwifi_cipher_suite)),
+               sizeof(struct libwifi_cipher_suite));
+    }
+    data += suite_count * sizeof(struct libwifi_cipher_suite);
 
-    // Bounds check and handle the RSN Authentication Key Management Suites
-    if ((data + sizeof(suite_count)) > tag_end) {
+    // Bounds check and handle the Authentication Key Management Suites
+    if ((size_t) (tag_end - data) < sizeof(uint16_t)) {
         return -EINVAL;
     }
-    suite_count = *data;
-    if (suite_count > LIBWIFI_MAX_CIPHER_SUITES) {
-        suite_count = LIBWIFI_MAX_CIPHER_SUITES;
-    }
+    memcpy(&suite_count, data, sizeof(suite_count));
+    suite_count = le16toh(suite_count);
     data += sizeof(suite_count);
-    if ((((suite_count * sizeof(struct libwifi_cipher_suite)) + data)) > tag_end) {
+    if ((size_t) (tag_end - data) < (suite_count * sizeof(struct libwifi_cipher_suite))) {
         return -EINVAL;
     }
-    info->num_auth_key_mgmt_suites = suite_count;
-
-    // Iterate through the found Auth Key Management Suites, adding them each time
-    for (int i = 0; i < suite_count; ++i) {
-        if (data > tag_end) {
-            return -EINVAL;
-        }
-        cur_cipher_suite = (struct libwifi_cipher_suite *) data;
-        memcpy(&info->auth_key_mgmt_suites[i], cur_cipher_suite, sizeof(struct libwifi_cipher_suite));
-        data += sizeof(struct libwifi_cipher_suite);
+    stored_count = suite_count;
+    if (stored_count > LIBWIFI_MAX_CIPHER_SUITES) {
+        stored_count = LIBWIFI_MAX_CIPHER_SUITES;
     }
+    info->num_auth_key_mgmt_suites = stored_count;
+    for (int i = 0; i < stored_count; ++i) {
+        memcpy(&info->auth_key_mgmt_suites[i], data + (i * sizeof(struct libwifi_cipher_suite)),
+               sizeof(struct libwifi_cipher_suite));
+    }
+    data += suite_count * sizeof(struct libwifi_cipher_suite);
 
     // Bounds check and handle the RSN Capabilities field
-    if (data > tag_end) {
+    if ((size_t) (tag_end - data) < sizeof(info->rsn_capabilities)) {
         return -EINVAL;
     }
     memcpy(&info->rsn_capabilities, data, sizeof(info->rsn_capabilities));
@@ -315,67 +317,66 @@ int libwifi_get_wpa_info(struct libwifi_wpa_info *info, const unsigned char *tag
     memset(info, 0, sizeof(struct libwifi_wpa_info));
 
     // Create a pointer we can manipulate from the tag data
-    unsigned char *data = ((unsigned char *) tag_data);
+    unsigned char *data = (unsigned char *) tag_data;
 
-    // Handle the WPA Version
+    // The version and the group cipher suite are required
+    if (tag_end < tag_data ||
+        (size_t) (tag_end - tag_data) < (sizeof(info->wpa_version) + sizeof(struct libwifi_cipher_suite))) {
+        return -EINVAL;
+    }
+
+    // Handle the Version
     memcpy(&info->wpa_version, data, sizeof(info->wpa_version));
     data += sizeof(info->wpa_version);
 
-    // Handle the WPA Multicast Cipher Suite
+    // Handle the Group / Multicast Cipher Suite
     memcpy(&info->multicast_cipher_suite, data, sizeof(struct libwifi_cipher_suite));
     data += sizeof(struct libwifi_cipher_suite);
 
-    // Bounds check and handle the WPA Unicast Cipher Suites
-    if (data > tag_end) {
+    // Bounds check and handle the Unicast Cipher Suites
+    if ((size_t) (tag_end - data) < sizeof(uint16_t)) {
         return -EINVAL;
     }
-    if ((data + sizeof(uint16_t)) > tag_end) {
-        return -EINVAL;
-    }
-    uint16_t suite_count = *data;
-    if (suite_count > LIBWIFI_MAX_CIPHER_SUITES) {
-        suite_count = LIBWIFI_MAX_CIPHER_SUITES;
-    }
+    uint16_t suite_count = 0;
+    memcpy(&suite_count, data, sizeof(suite_count));
+    suite_count = le16toh(suite_count);
     data += sizeof(suite_count);
-    if ((((suite_count * sizeof(struct libwifi_cipher_suite)) + data)) > tag_end) {
+    // The element must hold every suite it declares, even though only the first
+    // LIBWIFI_MAX_CIPHER_SUITES of them are stored
+    if ((size_t) (tag_end - data) < (suite_count * sizeof(struct libwifi_cipher_suite))) {
         return -EINVAL;
     }
-    info->num_unicast_cipher_suites = suite_count;
-
-    // Iterate through the found Unicast Ciphers, adding them each time
-    struct libwifi_cipher_suite *cur_cipher_suite = NULL;
-    for (int i = 0; i < suite_count; ++i) {
-        if (data > tag_end) {
-            return -EINVAL;
-        }
-        cur_cipher_suite = (struct libwifi_cipher_suite *) data;
-        memcpy(&info->unicast_cipher_suites[i], cur_cipher_suite, sizeof(struct libwifi_cipher_suite));
-        data += sizeof(struct libwifi_cipher_suite);
+    uint16_t stored_count = suite_count;
+    if (stored_count > LIBWIFI_MAX_CIPHER_SUITES) {
+        stored_count = LIBWIFI_MAX_CIPHER_SUITES;
     }
+    info->num_unicast_cipher_suites = stored_count;
+    for (int i = 0; i < stored_count; ++i) {
+        memcpy(&info->unicast_cipher_suites[i], data + (i * sizeof(struct libwifi_cipher_suite)),
+               sizeof(struct libwifi_cipher_suite));
+    }
+    data += suite_count * sizeof(struct libwifi_cipher_suite);
 
-    // Bounds check and handle the WPA Authentication Key Management Suites
-    if ((data + sizeof(suite_count)) > tag_end) {
+    // Bounds check and handle the Authentication Key Management Suites
+    if ((size_t) (tag_end - data) < sizeof(uint16_t)) {
         return -EINVAL;
     }
-    suite_count = *data;
-    if (suite_count > LIBWIFI_MAX_CIPHER_SUITES) {
-        suite_count = LIBWIFI_MAX_CIPHER_SUITES;
-    }
+    memcpy(&suite_count, data, sizeof(suite_count));
+    suite_count = le16toh(suite_count);
     data += sizeof(suite_count);
-    if ((((suite_count * sizeof(struct libwifi_cipher_suite)) + data)) > tag_end) {
+    if ((size_t) (tag_end - data) < (suite_count * sizeof(struct libwifi_cipher_suite))) {
         return -EINVAL;
     }
-    info->num_auth_key_mgmt_suites = suite_count;
-
-    // Iterate through the found Auth Key Management Suites, adding them each time
-    for (int i = 0; i < suite_count; ++i) {
-        if (data > tag_end) {
-            return -EINVAL;
-        }
-        cur_cipher_suite = (struct libwifi_cipher_suite *) data;
-        memcpy(&info->auth_key_mgmt_suites[i], cur_cipher_suite, sizeof(struct libwifi_cipher_suite));
-        data += sizeof(struct libwifi_cipher_suite);
+    stored_count = suite_count;
+    if (stored_count > LIBWIFI_MAX_CIPHER_SUITES) {
+        stored_count = LIBWIFI_MAX_CIPHER_SUITES;
     }
+    info->num_auth_key_mgmt_suites = stored_count;
+    for (int i = 0; i < stored_count; ++i) {
+        memcpy(&info->auth_key_mgmt_suites[i], data + (i * sizeof(struct libwifi_cipher_suite)),
+               sizeof(struct libwifi_cipher_suite));
+    }
+    data += suite_count * sizeof(struct libwifi_cipher_suite);
 
     return 0;
 }
